@@ -17,6 +17,9 @@
 //         | e:I | w:I    data: read / write element I
 //         | r:COUNT      data: resize(COUNT, sbepp::default_init)
 //         | a:LEN        data: assign_range(vector of LEN elements)
+//         | af:LEN an:LEN as:LEN ai:LEN rv:COUNT insr:POS:LEN insi:POS:LEN
+//                        data: assign(first,last), assign(LEN, v), assign_string(LEN chars), assign(ilist),
+//                        resize(COUNT, v), insert(begin+POS, first, last), insert(begin+POS, ilist)
 //         | fr bk pb pop cl er:A:B er1:A ins:POS:COUNT ins1:POS rs:COUNT
 //                        data: front, back, push_back, pop_back, clear, erase(begin+A, begin+B),
 //                        erase(begin+A), insert(begin+POS, COUNT, v), insert(begin+POS, v), resize(COUNT)
@@ -27,6 +30,12 @@
 // (cursor traversals: see `ctrav` below)
 // Answer: one block per n joined by ',', one character per path:
 //   o completed | A assertion handler | F SIGSEGV/SIGBUS | U UBSan trap | ? malformed path
+//
+// Second buffer mode (mutating accessors):   canary <msg> <hex image> <n | all> <slack> <path>;...
+// The view [p, p+n) lies INSIDE an allocation of n + slack accessible bytes; the slack is filled with
+// 0xC3 before every path, so an out-of-view write completes and the call returns:
+//   o completed, slack intact | A handler, slack intact | w completed, slack MODIFIED (silent
+//   out-of-view write) | W handler invoked AFTER the slack was modified | F | U | ?
 #pragma once
 #include "gen_driver.hpp"
 
@@ -277,6 +286,57 @@ void data_ops(D d, const path& p, std::size_t i)
     {
         d.resize(static_cast<S>(t.a));
     }
+    else if(t.k == "rv")
+    {
+        d.resize(static_cast<S>(t.a), static_cast<V>(0x5a));
+    }
+    else if(t.k == "af")
+    {
+        std::vector<V> v(static_cast<std::size_t>(t.a), static_cast<V>(0x5a));
+        d.assign(v.begin(), v.end());
+    }
+    else if(t.k == "an")
+    {
+        d.assign(static_cast<S>(t.a), static_cast<V>(0x5a));
+    }
+    else if(t.k == "as")
+    {
+        const std::string str(static_cast<std::size_t>(t.a), 'Z');
+        d.assign_string(str.c_str());
+    }
+    else if(t.k == "ai")
+    {
+        const V v = static_cast<V>(0x5a);
+        switch(t.a)
+        {
+        case 0: d.assign(std::initializer_list<V>{}); break;
+        case 1: d.assign({v}); break;
+        case 2: d.assign({v, v}); break;
+        case 3: d.assign({v, v, v}); break;
+        case 4: d.assign({v, v, v, v}); break;
+        case 5: d.assign({v, v, v, v, v}); break;
+        case 6: d.assign({v, v, v, v, v, v}); break;
+        case 7: d.assign({v, v, v, v, v, v, v}); break;
+        case 8: d.assign({v, v, v, v, v, v, v, v}); break;
+        default: throw bad_path{};
+        }
+    }
+    else if(t.k == "insr")
+    {
+        std::vector<V> v(static_cast<std::size_t>(t.b), static_cast<V>(0x5a));
+        sink(reinterpret_cast<std::uintptr_t>(d.insert(d.begin() + t.a, v.begin(), v.end())));
+    }
+    else if(t.k == "insi")
+    {
+        const V v = static_cast<V>(0x5a);
+        switch(t.b)
+        {
+        case 1: sink(reinterpret_cast<std::uintptr_t>(d.insert(d.begin() + t.a, {v}))); break;
+        case 2: sink(reinterpret_cast<std::uintptr_t>(d.insert(d.begin() + t.a, {v, v}))); break;
+        case 3: sink(reinterpret_cast<std::uintptr_t>(d.insert(d.begin() + t.a, {v, v, v}))); break;
+        default: throw bad_path{};
+        }
+    }
     else
     {
         throw bad_path{};
@@ -418,7 +478,7 @@ inline int main_loop(const std::map<std::string, msg_entry>& table)
         std::string cmd, msg, hex, ns, ps;
         is >> cmd >> msg >> hex >> ns >> ps;
         auto it = table.find(msg);
-        if((cmd != "trunc" && cmd != "ctrav") || it == table.end())
+        if((cmd != "trunc" && cmd != "ctrav" && cmd != "canary") || it == table.end())
         {
             std::cout << "bad-op\n";
             continue;
@@ -464,6 +524,12 @@ inline int main_loop(const std::map<std::string, msg_entry>& table)
             std::cout << out << "\n";
             continue;
         }
+        std::size_t slack = 0;
+        if(cmd == "canary")
+        {
+            slack = static_cast<std::size_t>(std::strtoull(ps.c_str(), nullptr, 10));
+            is >> ps;
+        }
         std::vector<path> paths;
         for(const auto& s : split(ps, ';'))
         {
@@ -477,7 +543,7 @@ inline int main_loop(const std::map<std::string, msg_entry>& table)
         std::string out;
         for(std::size_t n = lo; n <= hi; n++)
         {
-            gbuf gb{n};
+            gbuf gb{n + slack};
             if(n != lo)
             {
                 out += ",";
@@ -485,6 +551,7 @@ inline int main_loop(const std::map<std::string, msg_entry>& table)
             for(const auto& p : paths)
             {
                 std::memcpy(gb.p, img.data(), std::min(n, img.size()));
+                std::memset(gb.p + n, 0xC3, slack);
                 bool bad = false;
                 const auto st = proto::guarded(
                     [&]
@@ -498,7 +565,20 @@ inline int main_loop(const std::map<std::string, msg_entry>& table)
                             bad = true;
                         }
                     });
-                out += bad ? "?" : st.empty() ? "o" : st == "ASSERT" ? "A" : st == "FAULT" ? "F" : "U";
+                bool dirty = false;
+                for(std::size_t i = 0; i < slack; i++)
+                {
+                    if(static_cast<unsigned char>(gb.p[n + i]) != 0xC3)
+                    {
+                        dirty = true;
+                        break;
+                    }
+                }
+                out += bad ? "?"
+                       : st.empty() ? (dirty ? "w" : "o")
+                       : st == "ASSERT" ? (dirty ? "W" : "A")
+                       : st == "FAULT" ? "F"
+                                       : "U";
             }
         }
         std::cout << out << "\n";
